@@ -368,6 +368,8 @@ class C28(core.Check):
         if viol:
             return viol[0]
         n1, n2 = bytes(case['n1']), bytes(case['n2'])
+        if len(case['c']) != 4 or any(bytes(x).upper() != y.upper() for x, y in zip(case['c'], (n1, n1, n2, n2))):
+            return None     # not a well-formed case (the variants must be re-capitalisations of the names)
         # the effective names: trailing blanks are ignored, then the default extension is applied
         e1, e2 = n1.rstrip(), n2.rstrip()
         if case['prog']:
@@ -414,6 +416,23 @@ class C28(core.Check):
         if details[7]['status'] != [1, 53]:
             return 'opening the killed file gave %r' % details[7]['status']
         return None
+
+    def shrink_candidates(self, case):
+        """hist cases: remove the same position from a name and from its two re-capitalised variants."""
+        if case.get('k') != 'hist':
+            for d in core.Check.shrink_candidates(self, case):
+                yield d
+            return
+        if case['tree']:
+            d = dict(case)
+            d['tree'] = []
+            yield d
+        for key, idx in (('n1', (0, 1)), ('n2', (2, 3))):
+            for i in range(len(case[key])):
+                d = dict(case)
+                d[key] = case[key][:i] + case[key][i + 1:]
+                d['c'] = [(x[:i] + x[i + 1:]) if j in idx else list(x) for j, x in enumerate(case['c'])]
+                yield d
 
     def nontrivial(self, case, out):
         k = case['k']
